@@ -489,6 +489,16 @@ mod iup {
             let values_ok = out[a..=b].iter().zip(ds).all(|(g, d)| g.0 as i64 == d.0 && g.1 as i64 == d.1);
             s.oracle("iup-values-unchanged", values_ok, || c.req(), || canon.clone());
             let inferred = infer_contour(cs, ds, &keep);
+            // the Lean specification `inferSpec` (used by the theorems) against this independent reference
+            if !cs.is_empty() && cs.len() <= 64 {
+                let red = |f: &Fr| { let g = gcd(f.0, f.1).max(1); format!("{}/{}", f.0 / g, f.1 / g) };
+                let canon_inf: Vec<String> = inferred.iter().enumerate().map(|(k, inf)| match inf {
+                    None => format!("{}/1,{}/1", ds[k].0, ds[k].1),
+                    Some((ix, iy)) => format!("{},{}", red(ix), red(iy)) }).collect();
+                s.case("specification inference (independent reference)",
+                    format!("iup.infer | {} | {} | {}", fmt_pts(cs), fmt_pts(ds), join(&keep.iter().map(|b| *b as u8).collect::<Vec<_>>())),
+                    join(&canon_inf));
+            }
             for (k, inf) in inferred.iter().enumerate() {
                 if let Some((ix, iy)) = inf {
                     n_opt += 1;
